@@ -150,6 +150,11 @@ class Check:
         runs = []
         for r in range(16 if tier == 'quick' else 100):
             sel = rng.sample(good, rng.randrange(1, 6))
+            if r % 2 == 0:
+                # an object that is not a MOS message, before others: it must not keep the later keys from being processed
+                bad = rng.choice(['a-garbage.mos.xml', 'b-unknown.mos.xml', 'c-eaunknown.mos.xml', 'd-empty.mos.xml'])
+                sel = [x for x in sel if x != bad]
+                sel.insert(rng.randrange(0, max(1, len(sel))), bad)
             objects = {}
             for n_ in sel:
                 objects['ro/' + n_] = pool[n_]
